@@ -40,7 +40,7 @@ func genSet(t *rapid.T) setCase {
 	c := setCase{Fn: rapid.SampledFrom(setFns).Draw(t, "fn"), S1: sl("s1"), S2: sl("s2"), Nil1: rapid.Bool().Draw(t, "nil1"), Dst: rapid.IntRange(0, 4).Draw(t, "dst"),
 		Table: rapid.SliceOfN(rapid.IntRange(0, 2), 6, 6).Draw(t, "table"), V: rapid.IntRange(0, 6).Draw(t, "v")}
 	n := len(c.S1)
-	arg := rapid.OneOf(rapid.IntRange(-3, n+3), rapid.IntRange(-3, n+3), rapid.SampledFrom([]int{-1 << 62, 1 << 62, -1, 0, n}), g.ExtremeInt())
+	arg := rapid.OneOf(rapid.IntRange(-3, n+3), rapid.IntRange(-3, n+3), rapid.SampledFrom(append(g.FitInt([]int64{-1 << 62, 1 << 62}), -1, 0, n)), g.ExtremeInt())
 	c.A, c.B = arg.Draw(t, "a"), arg.Draw(t, "b")
 	return c
 }
@@ -422,7 +422,7 @@ func runBig(c bigCase, r *pb.Rec) error {
 	orig1, orig2 := make([]int, c.N1), make([]int, c.N2)
 	for i := range orig1 {
 		if i > 0 && i%c.DupStride == 0 {
-			orig1[i] = orig1[int(st>>20)%i] // a duplicate of an earlier element, wherever it is
+			orig1[i] = orig1[int((st>>20)%uint64(i))] // a duplicate of an earlier element, wherever it is
 			next()
 		} else {
 			orig1[i] = next()
@@ -430,7 +430,7 @@ func runBig(c bigCase, r *pb.Rec) error {
 	}
 	for i := range orig2 {
 		if i%3 == 0 && c.N1 > 0 {
-			orig2[i] = orig1[int(st>>24)%c.N1] // shared with s1
+			orig2[i] = orig1[int((st>>24)%uint64(c.N1))] // shared with s1
 			next()
 		} else {
 			orig2[i] = next()
